@@ -31,6 +31,7 @@ pub fn def() -> CheckDef {
         exec,
         components: "real code: all nine crates and cipher's front ends, both twins; stub: block cipher in most runs, real ciphers in the rest; no reference model",
         assumptions: &["toy permutation is a bijection (self-tested)", "sampling, not proof"],
+        nondet_is_violation: false,
     }
 }
 
